@@ -73,7 +73,7 @@ def run(eng, ctx):
         for hcase, hterm in (("handler set", ("nonnull", "errorhandler")), ("handler None", ("const", None))):
             nres += 1
             bind = {"self." + qf: ("const", mval), "self." + hf: hterm}
-            s_read = SymEval(eng.ce, rd, bind=bind, frozen_fields=frozen).run()
+            s_read = eng.symeval(rd.qualname, bind=bind, frozen_fields=frozen)
             lib = [h for h in handlers if h.type is not None and "RTCM" in norm(h.type)]
             heffs = [e for e in s_read.effects if e.handler in lib]
             dcalls = [e for e in heffs if e.kind == "call" and is_self_call(e.term, disp.name)]
@@ -90,7 +90,7 @@ def run(eng, ctx):
                 errarg = dcalls[0].term[3][0] if dcalls[0].term[3] else None
                 ctx.check(errarg is not None and errarg[0] == "exc", "C05.D3", rd.qualname, f"[{case}] dispatcher argument", expected="the caught exception object", found=show(errarg)[:40] if errarg else "none", **eng.loc(rd, dcalls[0].node))
                 ctx.check(len(dcalls) == 1, "C05.D3", rd.qualname, f"[{case}] dispatcher calls", expected="one", found=str(len(dcalls)), **eng.loc(rd, dcalls[0].node))
-                s_d = SymEval(eng.ce, disp, bind=bind, frozen_fields=frozen).run()
+                s_d = eng.symeval(disp.qualname, bind=bind, frozen_fields=frozen)
                 errp = ("param", disp.params[1]) if len(disp.params) > 1 else None
                 for e in s_d.effects:
                     if e.kind == "raise":
